@@ -7,7 +7,11 @@
 //! The case line is the server's page script (rows per page, paging state returned with each page,
 //! faults injected before a page is served) and the consumer's behaviour.
 //!
-//! Case: `pg|sess <skip 0|1> <eager|slow|drop<k>> <page> <page> ...`, page = `<rows>:<state>:<faults>`;
+//! `sessdg` = the session pager with an idempotent statement and DowngradingConsistencyRetryPolicy (fault
+//! `W`, a WriteTimeout, is then answered with IgnoreWriteError: pager.rs 220-226, 278-290).
+//! Consumers: `eager`, `slow`, `drop<k>` (drop after k rows), `pdrop<k>` (k rows, ONE more poll, drop).
+//!
+//! Case: `pg|sess|sessdg <skip 0|1> <consumer> <page> <page> ...`, page = `<rows>:<state>:<faults>`;
 //! state `.` = none (no more pages), `-` = empty byte string, else hex; rows are numbered 0,1,2,...
 //! across the pages (one `int` column). Faults (letters, consumed one per incoming EXECUTE of that page,
 //! `d` excepted): `u` UNPREPARED, `o` Overloaded, `r` ReadTimeout (too few replies), `R` ReadTimeout with
